@@ -82,6 +82,8 @@ structure Shared where
   genNone : Bool            -- `self._cache_gen is None`
   lock : Option Tid         -- owner of `self._cache_lock`
   len : Option Nat          -- `self._len`
+  raises : Option (Nat × PyErr) := none   -- (ghost) the underlying generator raises E, not StopIteration, when asked for its k-th value
+  genDead : Bool := false   -- the underlying generator object has been terminated by an exception (any further next() is StopIteration)
   deriving DecidableEq, Repr, Inhabited
 
 /-- one iterator / query thread -/
@@ -131,6 +133,37 @@ def entryRes (sh : Shared) : Query → Res
   | .count => answer sh .count []
   | q => fast q sh.cache
 
+/-- line 138 when the generator behaves: the next value, or `self._len = total` and StopIteration -/
+def step138ok (sh : Shared) (it : Iter) : Option (Shared × Iter) :=
+  match sh.src[sh.genPos]? with
+  | some x => some ({ sh with cache := sh.cache ++ [x], genPos := sh.genPos + 1 },
+                    { it with j := it.j + 1, pc := .l137 })
+  | none => some ({ sh with len := some sh.genPos }, { it with pc := .l139 })
+
+/-- the exception the generator raises now, if any -/
+def raisesNow (sh : Shared) : Option PyErr :=
+  match sh.raises with
+  | some (k, e) => if k = sh.genPos then some e else none
+  | none => none
+
+/-- line 138, `cache.append(advance_iterator(gen))`, with its three outcomes -/
+def step138 (sh : Shared) (it : Iter) : Option (Shared × Iter) :=
+  if sh.genDead then
+    -- next() on a generator that an exception has terminated: StopIteration, and `self._len = total` is NOT executed
+    some (sh, { it with pc := .l139 })
+  else match raisesNow sh with
+    | some e =>
+      -- the generator raises E: not caught by `except StopIteration`; the `finally` releases the lock and E escapes
+      -- (raise + release taken as one step); `self._cache_gen` keeps the dead generator
+      some ({ sh with genDead := true, lock := none }, crashWith it e)
+    | none => step138ok sh it
+
+theorem step138_eq {sh : Shared} (h : sh.raises = none ∧ sh.genDead = false) (it : Iter) :
+    step138 sh it = step138ok sh it := by
+  unfold step138 raisesNow
+  rw [h.1, h.2]
+  rfl
+
 /-- one statement of thread `t`; `none` = not enabled (blocked in `acquire()`, or finished) -/
 def stepIter (sh : Shared) (t : Tid) (it : Iter) : Option (Shared × Iter) :=
   match it.pc with
@@ -167,11 +200,7 @@ def stepIter (sh : Shared) (t : Tid) (it : Iter) : Option (Shared × Iter) :=
   | .l135 => some (sh, { it with brk := true, pc := .l144 })
   | .l136 => some (sh, { it with j := 0, pc := .l137 })
   | .l137 => some (sh, if it.j < 10 then { it with pc := .l138 } else { it with brk := false, pc := .l144 })
-  | .l138 =>
-    match sh.src[sh.genPos]? with
-    | some x => some ({ sh with cache := sh.cache ++ [x], genPos := sh.genPos + 1 },
-                      { it with j := it.j + 1, pc := .l137 })
-    | none => some ({ sh with len := some sh.genPos }, { it with pc := .l139 })   -- `self._len = total`; StopIteration
+  | .l138 => step138 sh it
   | .l139 => some (sh, { it with pc := .l140 })
   | .l140 => some ({ sh with genNone := true }, { it with hasGen := false, pc := .l141 })
   | .l141 => some ({ sh with complete := true }, { it with pc := .l142 })
@@ -265,5 +294,33 @@ def runOld (s : State) : List Tid → State
 def deadlocked (stepf : State → Tid → Option State) (s : State) : Bool :=
   (List.range s.its.length).any (fun t => !finished s t) &&
   (List.range s.its.length).all (fun t => (stepf s t).isNone)
+
+/-! ### a generator that raises (known finding D-C11-genraise)
+
+`raises = some (k, E)`: the underlying generator yields `src[0..k-1]` and then raises E (not StopIteration).
+An UNCACHED rule raises E in every operation that asks for the k-th value.  A cached one … see
+Properties/C11.lean. -/
+
+/-- the same query on an uncached rule whose generator raises E after k values: the consumer gets `src.take k`
+    and then E, unless it has stopped before -/
+def genRaising (q : Query) (src : List Int) (k : Nat) (e : PyErr) : Res :=
+  if (List.range (k + 1)).any (fun n => stops q (src.take n)) then gen q (src.take k) else .err e
+
+/-- one consumer run alone to its end on a cached rule at rest -/
+def soloRun (s : State) : Nat → State
+  | 0 => s
+  | fuel + 1 => match step s 0 with
+    | none => s
+    | some s' => soloRun s' fuel
+
+/-- a history of queries on ONE cached rule whose generator raises E after k values -/
+def runRaising (src : List Int) (k : Nat) (e : PyErr) : Shared → List Query → List Res
+  | _, [] => []
+  | sh, q :: qs =>
+    let s := soloRun { sh := sh, its := [{ q := q }] } (200 + 60 * (src.length + 2))
+    (match s.its[0]? with | some it => it.res.getD (.err .AssertionError) | none => .err .AssertionError) ::
+      runRaising src k e s.sh qs
+
+def initRaising (src : List Int) (k : Nat) (e : PyErr) : Shared := { initShared src with raises := some (k, e) }
 
 end Cache
